@@ -56,6 +56,7 @@ from .exceptions import (
     CaptionReadTimingError
 )
 from .geometry import Layout, Alignment, Padding, Size
+from .utils import unwrap_text
 
 # change cssutils default logging
 log.setLevel(FATAL)
@@ -255,11 +256,13 @@ class SAMIReader(BaseReader):
             # (e.g. &amp;) automatically. The following variable, therefore,
             # should contain a plain unicode string.
             # strips indentation whitespace only
-            pattern = re.compile("^(?:[\n\r]+\\s*)?(.+)")
+            pattern = re.compile("^(?:[\n\r]+\\s*)?(.+)", re.DOTALL)
             result = pattern.search(tag)
             if not result:
                 return
-            tag_text = result.groups()[0]
+            tag_text = unwrap_text(result.groups()[0])
+            if not tag_text:
+                return
             self.line.append(CaptionNode.create_text(tag_text, inherit_from))
         # convert line breaks
         elif tag.name == 'br':
